@@ -83,9 +83,13 @@ func c19GenReal(r *rand.Rand, tier string) *c19Case {
 			if r.Intn(2) == 0 && len(rq.Body) == 0 && !rq.WS {
 				rq.Method = "POST"
 				rq.Body = []byte("payload")
+				rq.Chunked = r.Intn(2) == 0 // chunked upload
 			}
 			if (rq.Method == "GET" || rq.Method == "HEAD" || rq.Method == "OPTIONS") && !rq.WS {
 				rq.Body = nil
+			}
+			if rq.WS || rq.Method == "GET" || rq.Method == "HEAD" || rq.Method == "OPTIONS" {
+				rq.Chunked = false
 			}
 			// hop-by-hop request headers are consumed by the front server / real client here
 			var hs [][2]string
@@ -356,6 +360,9 @@ func c19SameVals(a, b []string) bool {
 }
 
 const c19SkipHeader = "X-C19-Skip"
+
+// net/http (transfer.go, requestMethodUsuallyLacksBody)
+var c19UsuallyLacksBody = map[string]bool{"GET": true, "HEAD": true, "DELETE": true, "OPTIONS": true, "PROPFIND": true, "SEARCH": true}
 
 // ProxyConfig.Transport that logs which host every round trip of the reverse proxy addressed
 type c19LogRT struct {
@@ -679,7 +686,9 @@ func c19RunE2E(c *c19Case) (res Result) {
 		var panicked any
 		abs := rq.Host != ""
 		hijackable := c.Kind == 5
-		bodyOnce := c.Kind == 5 && len(rq.Body) > 0 && !rq.WS
+		// a zero-byte upload of unknown length is still a (chunked) server body — unless the method usually
+		// has no body: then net/http's client probes the reader and sends no body at all
+		bodyOnce := c.Kind == 5 && (len(rq.Body) > 0 || rq.Chunked && !c19UsuallyLacksBody[rq.Method]) && !rq.WS
 		inst := 0
 		if rq.Inst == 1 && len(insts) > 1 {
 			inst = 1
@@ -699,6 +708,11 @@ func c19RunE2E(c *c19Case) (res Result) {
 			var body io.Reader
 			if len(rq.Body) > 0 && !rq.WS {
 				body = bytes.NewReader(rq.Body)
+			}
+			if rq.Chunked && !rq.WS {
+				// a reader whose length net/http cannot know: ContentLength -1 in-process, a chunked
+				// upload over the wire (also with zero bytes)
+				body = struct{ io.Reader }{bytes.NewReader(rq.Body)}
 			}
 			if c.Kind == 5 && rq.WS {
 				q := *rq
@@ -1125,7 +1139,14 @@ func c19RunE2E(c *c19Case) (res Result) {
 			}
 		}
 		if !bytes.Equal(h.body, rq.Body) {
-			fail(i, fmt.Sprintf("body of %d bytes arrived as %d bytes (or altered)", len(rq.Body), len(h.body)))
+			how := ""
+			if rq.Chunked {
+				how = " sent with unknown length (ContentLength -1 / chunked)"
+			}
+			fail(i, fmt.Sprintf("body of %d bytes%s arrived as %d bytes (or altered)", len(rq.Body), how, len(h.body)))
+		}
+		if rq.Chunked && !rq.WS {
+			tagset["e2e-body-unknown-length"] = true
 		}
 		for k, vs := range c19EndToEnd(hdrs) {
 			if k == "X-Forwarded-For" && !rq.WS { // extended by the reverse proxy by design
@@ -1566,6 +1587,9 @@ func c19GenE2E(r *rand.Rand, tier string, weird bool) *c19Case {
 				rq.Body = c19GenBytes(r, tier)
 			}
 			rq.Canceled = r.Intn(25) == 0
+			if rq.Method != "GET" && rq.Method != "HEAD" && rq.Method != "OPTIONS" && r.Intn(3) == 0 {
+				rq.Chunked = true // streamed upload: the length is not known up front
+			}
 			if weird {
 				uris := map[string][]string{
 					"/ov/v1/X?q=1": {"/a/v1/X?q=1", "/b/X?q=1"}, "/ov/Y": {"/a/Y"}, "/bad/x": nil, "/dots/k": nil, "/abs/p": nil,
@@ -1703,6 +1727,7 @@ func c19ShrinkE2E(c *c19Case) []any {
 		variants := []func(q *c19Req) bool{
 			func(q *c19Req) bool { ok := len(q.Headers) > 0; q.Headers = nil; return ok },
 			func(q *c19Req) bool { ok := len(q.Body) > 0; q.Body = nil; return ok },
+			func(q *c19Req) bool { ok := len(q.Body) > 1; q.Body = []byte("x"); return ok },
 			func(q *c19Req) bool { ok := len(q.Resp.Body) > 1; q.Resp.Body = []byte("x"); return ok },
 			func(q *c19Req) bool {
 				ok := len(q.Resp.Headers) > 1
@@ -1717,6 +1742,7 @@ func c19ShrinkE2E(c *c19Case) []any {
 				return ok
 			},
 			func(q *c19Req) bool { ok := q.WS; q.WS = false; return ok },
+			func(q *c19Req) bool { ok := q.Chunked; q.Chunked = false; return ok },
 			func(q *c19Req) bool { ok := q.Skip; q.Skip = false; return ok },
 			func(q *c19Req) bool { ok := len(q.ProvErr) > 0; q.ProvErr = nil; return ok },
 		}
